@@ -72,7 +72,7 @@ CHECKS = {
         'text': 'Every overload of every operator, function and aggregate in the live registries x every concrete instantiation of `Any` slots (13 column types incl. Amount, Position, Inventory, interval, '
                 'set, list, dict, object) and bool for int slots, on tables holding the full product of the column alphabets; depth 2: every column slot of every such program replaced by every depth-1 '
                 'producer whose ANNOUNCED datatype is the slot type (35k programs); every attribute path of every structured type, dict subscripts, implicit casts of object operands, FROM/IN subquery '
-                'columns; `*` and all columns of every table over the ledger family (n <= 1 quick, <= 2 thorough), for the postings table also under 5 OPEN / CLOSE / CLEAR qualifiers (synthesised rows). Invariants: every cell is NULL or an instance of the announced datatype, no '
+                'columns, COALESCE with a NULL literal at every position; `*` and all columns of every table over the ledger family (n <= 1 quick, <= 2 thorough), for the postings table also under 5 OPEN / CLOSE / CLEAR qualifiers (synthesised rows). Invariants: every cell is NULL or an instance of the announced datatype, no '
                 'non-data exception escapes execute, render_text / render_csv / numberify accept the result.',
         'note': 'Trusted: beancount data model. Data errors (ValueError, ArithmeticError, re.error, KeyError, IndexError) are not type errors: failing rows are isolated and dropped. Open known findings: '
                 'min/max over unorderable values, truth value of Inventory. Membership of amount-like values in collections of foreign element types is outside (beancount equality raises).',
@@ -143,7 +143,7 @@ CHECKS = {
         'engine': 'E-enum',
         'technique': 'bounded-exhaustive enumeration of all small tables x all pivot layouts against a reference reshaping, with un-pivot round trip',
         'design_ref': 'DESIGN.md section 4, C15',
-        'text': 'ALL tables of <= 3 rows over a 12-letter and <= 2 rows over a 27-letter (r, k, v) alphabet (thorough: <= 4 / <= 3) x ALL 240 layouts: every permutation of [r, k, agg] and '
+        'text': 'ALL tables of <= 3 rows over a 12-letter and <= 2 rows over a 45-letter (r, k, v) alphabet (first-column values 2, 10, 3, 0, -1: numeric order differs from text order, zero is falsy) (thorough: <= 4 / <= 3) x ALL 240 layouts: every permutation of [r, k, agg] and '
                 '[r, k, agg1, agg2] target lists for four aggregate sets, PIVOT BY by names and by positions, in both pivot orders. Names, datatypes and every cell are compared with the reshaping '
                 'of the reference un-pivoted result, the real result is un-pivoted back and compared with it, the same statement object is executed a second time on tables of <= 2 rows, and eight kinds of invalid PIVOT BY references must be rejected at compile time.',
         'note': 'Trusted: vt/ref/select.py for the un-pivoted result. NULL pivot keys are excluded (ordering unspecified).',
@@ -194,7 +194,7 @@ CHECKS = {
         'design_ref': 'DESIGN.md section 4, C03',
         'text': 'ALL tables of <= 3 (quick) / <= 4 (thorough) rows over a 9-letter alphabet with NULLs and ties (row id makes stability observable) x ALL lists of 1..3 distinct keys out of 4 '
                 'candidates with every ASC/DESC vector (thorough adds all 4-key lists) x key forms (position, alias, repeated expression, hidden expression, mixed) x DISTINCT x LIMIT '
-                '{none,0,1,2,>size}; aggregate queries ordered by group keys / aggregates / hidden aggregates, DISTINCT over grouped queries whose key is not selected; every ordered pair of orderable columns of every Beancount table kind with a hidden '
+                '{none,0,1,2,>size}; aggregate queries ordered by group keys / aggregates / hidden aggregates, DISTINCT over grouped queries whose key is not selected, DISTINCT over rows with colliding hashes; every ordered pair of orderable columns of every Beancount table kind with a hidden '
                 'ORDER BY key; IN-subquery targets combined with a different IN-subquery ordering key.',
         'note': 'Trusted: vt/ref/select.py (functools.cmp_to_key comparator, sorted() stability). Unorderable keys and unhashable rows are outside the property.',
     },
